@@ -5,6 +5,7 @@ import (
 	"errors"
 	"fmt"
 	"io"
+	"time"
 
 	"github.com/gorilla/websocket"
 	"pgregory.net/rapid"
@@ -26,6 +27,11 @@ type FaultCase struct {
 	// terminator Term) instead of the read program.
 	Join bool   `json:"join,omitempty"`
 	Term string `json:"term,omitempty"`
+	// ReArm: like a retry loop, the application sets a new read deadline
+	// (none, or a future one) before every call that follows the first error.
+	ReArm bool `json:"rearm,omitempty"`
+	// Limit: 0 none; 1 SetReadLimit(largest message's wire size); 2 SetReadLimit(2^30).
+	Limit int `json:"limit,omitempty"`
 }
 
 type faultKind struct {
@@ -62,6 +68,8 @@ func genFaultCase(t *rapid.T) FaultCase {
 	}
 	c.Later = rapid.SampledFrom([]int{1, 3, 3, 10, 900}).Draw(t, "later")
 	c.OnlyOffset = -1
+	c.ReArm = rapid.Bool().Draw(t, "rearm")
+	c.Limit = rapid.SampledFrom([]int{0, 0, 1, 2}).Draw(t, "limit")
 	if rapid.IntRange(0, 5).Draw(t, "join") == 0 {
 		c.Join = true
 		c.Term = rapid.SampledFrom([]string{"\n", "||", "\n", ""}).Draw(t, "term")
@@ -178,6 +186,23 @@ func checkC05(c FaultCase, o *Obs) error {
 	return nil
 }
 
+// applyFaultCaseSettings applies the connection settings of the case that
+// must not matter: a read limit no message exceeds.
+func applyFaultCaseSettings(c FaultCase, model *Model, conn *websocket.Conn) {
+	switch c.Limit {
+	case 1:
+		limit := 1
+		for _, m := range model.Msgs {
+			if m.WireLen > limit {
+				limit = m.WireLen
+			}
+		}
+		conn.SetReadLimit(int64(limit))
+	case 2:
+		conn.SetReadLimit(1 << 30)
+	}
+}
+
 // runFaultJoin is runFault for a stream consumed through JoinMessages.
 func runFaultJoin(c FaultCase, model *Model, off int, fk faultKind, later int, o *Obs) error {
 	tr := xport.NewScriptConn(nil, nil)
@@ -190,6 +215,7 @@ func runFaultJoin(c FaultCase, model *Model, off int, fk faultKind, later int, o
 	tr.SetReadFault(&xport.ReadFault{Offset: off, Kind: fk.kind, WithData: fk.withData, Resume: fk.resume})
 	h := &handlerLog{failAt: -1}
 	h.install(conn)
+	applyFaultCaseSettings(c, model, conn)
 	var joined []byte
 	var bounds []int // joined length after message i and its terminator
 	for _, m := range model.Msgs {
@@ -255,6 +281,9 @@ func runFaultJoin(c FaultCase, model *Model, off int, fk faultKind, later int, o
 	}
 	for i := 0; i < later && i < 5; i++ {
 		var xb [32]byte
+		if c.ReArm {
+			conn.SetReadDeadline(time.Now().Add(time.Hour))
+		}
 		if k, e := jr.Read(xb[:]); k != 0 || e == nil {
 			return fmt.Errorf("JoinMessages(term %q): read %d after the error %v returned %d bytes, error %v", c.Term, i+1, ferr, k, e)
 		}
@@ -281,6 +310,17 @@ func runFault(c FaultCase, model *Model, lens []int, off int, fk faultKind, late
 	tr.SetReadFault(&xport.ReadFault{Offset: off, Kind: fk.kind, WithData: fk.withData, Resume: fk.resume})
 	h := &handlerLog{failAt: -1}
 	h.install(conn)
+	applyFaultCaseSettings(c, model, conn)
+	if c.ReArm {
+		afterReadError = func(cn *websocket.Conn, i int) {
+			if i%2 == 0 {
+				cn.SetReadDeadline(time.Time{})
+			} else {
+				cn.SetReadDeadline(time.Now().Add(time.Hour))
+			}
+		}
+		defer func() { afterReadError = nil }()
+	}
 	rt := RunRead(conn, c.Reads, len(model.Msgs)+2, lens, later)
 	if !tr.ReadFaultFired() {
 		// The stream's own end was reached first (offset == len and the
